@@ -37,7 +37,9 @@ static object_t *main_ob = 0;
 static svalue_t uslots[NSLOT];
 static object_t *uhandle[NOBJ];
 static int exist_used[NOBJ];
-static int call_used[NCALL], call_handle[NCALL];
+static int call_used[NCALL], call_handle[NCALL], call_owner[NCALL], call_st[NCALL];
+static object_t *call_ownerp[NCALL];
+extern void remove_all_call_out (object_t *);
 static int sent_used[NSENT], sent_owner[NSENT];
 static object_t *sent_ownerp[NSENT];
 static object_t *user_ob = 0;	/* the interactive user input_to() waits for */
@@ -460,6 +462,14 @@ static int unit_op (int n, char **t, int *a)
     }
   else if (!strcmp (t[0], "rmcall"))
     remove_call_out_by_handle (call_handle[a[1]]);
+  else if (!strcmp (t[0], "rmcalln"))
+    {
+      char name[16];
+      snprintf (name, sizeof name, "cbs%d", a[1]);
+      remove_call_out (call_ownerp[a[1]], name);
+    }
+  else if (!strcmp (t[0], "rmall"))
+    remove_all_call_out (hobj (a[1]));
   else if (!strcmp (t[0], "sappend"))
     {
       /* v[d] += <number>: f_add_eq with a number on the right */
@@ -592,6 +602,11 @@ static int applicable (int n, char **t, int *a)
     return n == 6 && a[1] >= 0 && a[1] < NCALL && objok (a[2]) && SL (a[4]) && SL (a[5]) && !call_used[a[1]];
   if (!strcmp (op, "rmcall"))
     return n == 2 && a[1] >= 0 && a[1] < NCALL && call_used[a[1]];
+  if (!strcmp (op, "rmcalln"))
+    return n == 2 && a[1] >= 0 && a[1] < NCALL && call_used[a[1]] && call_st[a[1]] && objok (call_owner[a[1]])
+      && hobj (call_owner[a[1]]) == call_ownerp[a[1]];
+  if (!strcmp (op, "rmall"))
+    return n == 2 && objok (a[1]);
   if (!strcmp (op, "sent"))
     return n == 5 && a[1] >= 0 && a[1] < NSENT && objok (a[2]) && SL (a[3]) && SL (a[4]) && !sent_used[a[1]];
   if (!strcmp (op, "rmsent"))
@@ -634,6 +649,8 @@ static int applicable (int n, char **t, int *a)
           return 0;
       return 1;
     }
+  if (!strcmp (op, "rest") || !strcmp (op, "resto"))
+    return n == 2 && lpc_mode;
   if (!strcmp (op, "err"))
     return n == 3 && lpc_mode && SL (a[1]) && SL (a[2]);
   if (!strcmp (op, "efun"))
@@ -680,7 +697,11 @@ static int c06_cmd (char *line)
           /* warm-up: one no-op round trip through the interpreter, one object load */
           {
             char *w[1] = { "free 0" };
+            char *w2[1] = { "rest ({1,\"s\",([\"k\":2,]),})" };
+            char *w3[1] = { "resto ({1,})" };
             vh_apply_str (main_ob, "do_op", 1, w, 0, 0);
+            vh_apply_str (main_ob, "do_op", 1, w2, 0, 0);
+            vh_apply_str (main_ob, "do_op", 1, w3, 0, 0);
           }
         }
       {
@@ -853,6 +874,8 @@ static int c06_cmd (char *line)
         }
       else if (!strcmp (t[0], "sent"))
         cg = hobj (a[2]);
+      else if (!strcmp (t[0], "rmcalln"))
+        snprintf (buf, sizeof buf, "rmcalln %d %d", a[1], call_owner[a[1]]);
       else if (!strcmp (t[0], "inp"))
         cg = user_ob;
       command_giver = cg;
@@ -906,9 +929,20 @@ static int c06_cmd (char *line)
   else if (!strcmp (t[0], "inp"))
     input_pending = 1;
   else if (!strcmp (t[0], "call"))
-    call_used[a[1]] = 1;
-  else if (!strcmp (t[0], "rmcall"))
+    {
+      call_used[a[1]] = 1;
+      call_owner[a[1]] = a[2];
+      call_ownerp[a[1]] = hobj (a[2]);
+      call_st[a[1]] = a[3] != 0;
+    }
+  else if (!strcmp (t[0], "rmcall") || !strcmp (t[0], "rmcalln"))
     call_used[a[1]] = 0;
+  else if (!strcmp (t[0], "rmall"))
+    {
+      for (int k = 0; k < NCALL; k++)
+        if (call_used[k] && (call_ownerp[k] == hobj (a[1]) || (call_ownerp[k]->flags & O_DESTRUCTED)))
+          call_used[k] = 0;
+    }
   else if (!strcmp (t[0], "sent"))
     {
       sent_used[a[1]] = 1;
